@@ -1,0 +1,77 @@
+//go:build verif
+
+package minter
+
+import (
+	"math/big"
+	"sync"
+
+	"github.com/MinterTeam/minter-go-node/coreV2/appdb"
+	"github.com/MinterTeam/minter-go-node/coreV2/state"
+	"github.com/MinterTeam/minter-go-node/coreV2/types"
+	abciTypes "github.com/tendermint/tendermint/abci/types"
+)
+
+// VerifCheckTx is CheckTx without the Tendermint mempool: the gas-price floor is 0 and
+// the one-tx-per-sender map is fresh for every call.
+func (blockchain *Blockchain) VerifCheckTx(tx []byte) abciTypes.ResponseCheckTx {
+	response := blockchain.executor.RunTx(blockchain.CurrentState(), tx, nil, blockchain.Height()+1, &sync.Map{}, 0, true)
+	return abciTypes.ResponseCheckTx{
+		Code:      response.Code,
+		Data:      response.Data,
+		Log:       response.Log,
+		Info:      response.Info,
+		GasWanted: response.GasWanted,
+		GasUsed:   response.GasUsed,
+	}
+}
+
+// VerifDeliverState exposes the deliver state (read-only use by the verification harness).
+func (blockchain *Blockchain) VerifDeliverState() *state.State { return blockchain.stateDeliver }
+
+// VerifAppDB exposes the application database handle.
+func (blockchain *Blockchain) VerifAppDB() *appdb.AppDB { return blockchain.appDB }
+
+// VerifWouldHalt evaluates the halt decision BeginBlock would take for the given vote set,
+// without stopping the process.
+func (blockchain *Blockchain) VerifWouldHalt(height uint64, votes []abciTypes.VoteInfo) bool {
+	if blockchain.stateDeliver == nil {
+		return false
+	}
+	blockchain.lockValidators.Lock()
+	blockchain.validatorsStatuses = map[types.TmAddress]int8{}
+	for _, v := range votes {
+		var address types.TmAddress
+		copy(address[:], v.Validator.Address)
+		if v.SignedLastBlock {
+			blockchain.validatorsStatuses[address] = ValidatorPresent
+		} else {
+			blockchain.validatorsStatuses[address] = ValidatorAbsent
+		}
+	}
+	blockchain.lockValidators.Unlock()
+	blockchain.calculatePowers(blockchain.stateDeliver.Validators.GetValidators())
+	return blockchain.isApplicationHalted(height) && !blockchain.grace.IsUpgradeBlock(height)
+}
+
+// VerifKnownVersion reports whether BeginBlock at height would find a known version name.
+func (blockchain *Blockchain) VerifKnownVersion(height uint64) bool {
+	_, ok := blockchain.knownUpdates[blockchain.appDB.GetVersionName(height)]
+	return ok
+}
+
+// VerifPowers returns the voting powers computed by the last calculatePowers call.
+func (blockchain *Blockchain) VerifPowers() (map[types.Pubkey]*big.Int, *big.Int) {
+	return blockchain.validatorsPowers, blockchain.totalPower
+}
+
+// VerifWaitSnapshots waits for background snapshot goroutines.
+func (blockchain *Blockchain) VerifWaitSnapshots() {
+	blockchain.appDB.WG.Wait()
+	blockchain.wgSnapshot.Wait()
+}
+
+// VerifIsGrace reports whether height is inside a grace period.
+func (blockchain *Blockchain) VerifIsGrace(height uint64) bool {
+	return blockchain.grace.IsGraceBlock(height)
+}
